@@ -88,6 +88,11 @@ def run(ctx):
               "application/json; charset=nope", ";;;=", "\xff"]
     hdrs = [{}, {"Cookie": "a=\x00;;;=;\""}, {"Authorization": "Digest \""},
             {"Range": "bytes=--,,"}, {"Host": "<x>:99999999999:1"},
+            {"Host": "example.org:"}, {"Host": "example.org:http"},
+            {"Host": "[::1]"}, {"Host": "[2001:db8::7]:443"}, {"Host": ":"},
+            {"Host": ""}, {"Host": "caf\xe9.example:80"},
+            {"X-Forwarded-For": "\x00,", "Referer": "\xff",
+             "User-Agent": ""},
             {"Cookie": "SESSID=" + "A" * 5000, "Accept": ",;q=,,"}]
     programs = [("ret", v) for v in dc.VAL_POOL[::3]] + \
         [("abort", c) for c in (0, 200, 401, 404, 999)] + \
@@ -114,7 +119,7 @@ def run(ctx):
         def readline(self, size=-1):
             self.reads += 1
             return self._b.readline(size)
-    total = 400 if ctx.quick else 6000
+    total = 1500 if ctx.quick else 12000
     for i in range(total):
         prog = rng.choice(programs)
         cfg = {"auto_args": rng.random() < 0.8, "auto_form": rng.random() < 0.8,
@@ -142,8 +147,22 @@ def run(ctx):
                       headers=rng.choice(hdrs))
         if rng.random() < 0.05:
             del env["PATH_INFO"]
+        # variables a server may leave out (PEP 3333 / CGI: optional)
+        for key in ("REMOTE_ADDR", "QUERY_STRING", "SERVER_SOFTWARE",
+                    "SERVER_PROTOCOL", "wsgi.errors"):
+            if rng.random() < 0.2:
+                env.pop(key, None)
+        if rng.random() < 0.1:
+            env["REMOTE_HOST"] = rng.choice(["", "h\xe9te", "<b>"])
+        if rng.random() < 0.1:
+            env["SCRIPT_NAME"] = rng.choice(["", "/app", "\xff"])
         detail = {"method": env["REQUEST_METHOD"],
-                  "path": env.get("PATH_INFO"), "query": env["QUERY_STRING"][:40],
+                  "path": env.get("PATH_INFO"),
+                  "query": env.get("QUERY_STRING", "<absent>")[:40],
+                  "absent": [k for k in ("REMOTE_ADDR", "QUERY_STRING",
+                                         "SERVER_SOFTWARE",
+                                         "SERVER_PROTOCOL", "wsgi.errors")
+                             if k not in env],
                   "clen": env.get("CONTENT_LENGTH"),
                   "ctype": env.get("CONTENT_TYPE"), "program": prog,
                   "config": cfg,
